@@ -124,7 +124,26 @@ fn check_model(h: &CaseH, m: &Model) -> Verdict {
 
 fn check_plan(h: &CaseH, pl: &Plan) -> Verdict {
     let m = model::build(pl);
-    let v = check_model(h, &m);
+    let mut v = check_model(h, &m);
+    // the same building after an edit that leaves every space record as it is (floor slabs made deeper), computed
+    // next in the same thread: areas, volumes and both ventilation rates must follow the edit
+    if matches!(v, Verdict::Pass) && pl.salt % 3 == 0 {
+        let mut m2 = m.clone();
+        let mut edited = false;
+        for w in m2.walls.iter_mut() {
+            if env::tilt_class(w.geometry.tilt as f64) == TiltC::Bottom && !w.geometry.polygon.is_empty() {
+                for p in w.geometry.polygon.iter_mut() {
+                    p.y *= 1.5;
+                }
+                edited = true;
+            }
+        }
+        // windows of a glazed floor keep their place (they lie inside the enlarged slab)
+        if edited {
+            h.class("floors-edited-with-spaces-unchanged");
+            v = check_model(h, &m2);
+        }
+    }
     h.sample(|| json!({"spaces": pl.spaces.iter().map(|s| json!({"kind": s.kind, "inside": s.inside, "mult": s.mult, "w": s.w, "d": s.d, "h": s.height, "floors": s.floors.len(), "ceiling": s.ceiling.as_ref().map(|c| c.1)})).collect::<Vec<_>>()}));
     v
 }
@@ -362,7 +381,7 @@ pub fn run(args: &Args) -> ! {
         check_scaling,
     );
     run_classifiers(&ctx);
-    for c in ["generated/outside-space", "generated/uninhabited-inside", "generated/multiplier", "generated/interior-envelope-element", "generated/adiabatic-envelope-element", "generated/ventilation/given", "generated/several-ceiling-candidates"] {
+    for c in ["generated/outside-space", "generated/uninhabited-inside", "generated/multiplier", "generated/interior-envelope-element", "generated/adiabatic-envelope-element", "generated/ventilation/given", "generated/several-ceiling-candidates", "generated/floors-edited-with-spaces-unchanged"] {
         ctx.require_class(c);
     }
     ctx.finish()
